@@ -51,10 +51,16 @@ class State:
         bsm = rcls.methods.get('bytes_stored') if rcls is not None else None
         if not (bsm is not None and bsm.is_property):
             attrs['bytes_stored'] = self.bs
+        # whatever else the real constructors create exists here too, with unknown content
+        from contracts.decoder_c import unknown_ctor_attrs
+        attrs.update(unknown_ctor_attrs(r, 'decoder.fast_pgn_metadata.__init__', set(attrs) | {'bytes_stored'}, 'record'))
         self.rec = Obj(rcls, attrs)
         self.key = stream_key(self.pgn, self.src, self.dest)
         self.data = SymMap('data', [[self.key, GV.make([(self.absent.t, ABSENT), (z3.Not(self.absent.t), self.rec)])]])
-        self.decoder = Obj(r.cls('decoder', 'NMEA2000Decoder'), {'data': self.data})
+        dattrs = {'data': self.data}
+        dattrs.update(unknown_ctor_attrs(r, 'decoder.NMEA2000Decoder.__init__', dattrs, 'NMEA2000Decoder'))
+        self.decoder = Obj(r.cls('decoder', 'NMEA2000Decoder'), dattrs)
+        self.decoder_attrs0 = dict(dattrs)
         self.can = SBytes([ex.fresh(f'can_data[{i}]', bits=8) for i in range(m)])
         self.timestamp = Opaque('timestamp')
         self.iso = Opaque('source_iso_name')
@@ -186,7 +192,7 @@ class TransitionTask(Task):
             # frame: only the record of (pgn, src, dest) is read or written
             add('assigns-only-the-record-of-this-stream', not st.data.foreign and len(st.data.entries) == 1,
                 meta={'note': f'access to another stream key: {st.data.foreign[:2]}', 'scenario': 'cross-stream'})
-            others = {k for k in st.decoder.attrs if k != 'data'}
+            others = {k for k, v in st.decoder.attrs.items() if k != 'data' and v is not st.decoder_attrs0.get(k)}
             add('assigns-no-other-decoder-state', not others, meta={'note': f'decoder attributes written: {sorted(others)}'})
             pl0, sc0, bs0, slots0 = st.view0()
             post = view_of_entry(st.data.entries[0][1], None)
@@ -277,6 +283,11 @@ def main(tier):
         run.add(TransitionTask(m))
     from props import C04_lemmas
     C04_lemmas.add(run, tier)
+    # which stream a frame belongs to is decided by the identifier parser: an identifier that is not of a stream must not be
+    # filed under it (the 29-bit layout contract, also part of C05)
+    from pyvc.tasks import SpecTask, with_prop
+    from contracts.headers import ExtractHeader
+    run.add(SpecTask(with_prop(ExtractHeader(), 'C04')))
     run.extra_cov['exhaustive'] = True
     run.extra_cov['exhaustive_note'] = 'frame data lengths 0..8 enumerated; record state (absent or any well-formed record over 32 slots), header byte and data bytes symbolic'
     run.trust('pyvc dict model (symbolic maps with explicit entries), the abstract value "frames combined in index order" with its reversal algebra',
